@@ -435,7 +435,7 @@ Proof.
   rewrite result_count. cbn [with_namer with_store b_store b_added b_found b_cuts] in *.
   rewrite (CntS_map _ _ _ (rename_results_rows _ _ _ Hst)).
   destruct nl as [nm left]. cbn [fst snd].
-  pose proof (add_missing_fold _ _ _ _ _ _ _ Hnl) as Hl. unfold left_frags in Hl. cbn [flat_map app] in Hl.
+  pose proof (add_missing_fold _ _ _ _ _ _ _ _ Hnl) as Hl. unfold left_frags in Hl. cbn [flat_map app] in Hl.
   rewrite Hl, E1.
   assert (Hnf : filter (not_found (b_found b2)) (in_frags inp)
                 = filter (fun f => negb (is_found b2 f)) (in_frags inp)).
